@@ -37,6 +37,7 @@ CONSTANTS
   MinSteps, MaxSteps,
   RationalOnly,\* TRUE: updates/readings must be in the rational fragment
   Twins,       \* TRUE: a renamed twin of the definition is drawn as well (C13)
+  Chain,       \* TRUE: every grown node uses the previously grown node (deep chains of shared sub-terms)
   NeedDt,      \* TRUE: some update expression must depend on dt (time-stepping matters)
   BindLeaves,  \* TRUE: symbol leaves may be bound even when something was grown
   EmitOn,      \* FALSE: invariant checking only, nothing is printed
@@ -65,13 +66,17 @@ Leaves == [i \in 1..(NSyms + 1 + Len(Consts)) |->
              ELSE IF i = NSyms + 1 THEN Sym("dt")
              ELSE Const(Consts[i - NSyms - 1])]
 
-UnaryOps == {"neg", "pow2", "pow3", "sin", "cos", "exp", "tanh", "atan", "sqrt1", "log1"}
+UnaryOps == {"neg", "pow2", "pow3", "sin", "cos", "exp", "tanh", "atan", "sqrt1", "log1", "tan", "asinb", "acosb"}
+\* asin / acos are only applied to arguments that are bounded by construction (|sin|, |cos|, |tanh| <= 1)
+BoundedFn(e) == e.op = "fn" /\ e.f \in {"sin", "cos", "tanh"}
 MkNode(op, a, b) ==
   CASE op \in BinOps -> Bin(op, a, b)
     [] op = "neg"  -> Neg(a)
     [] op = "pow2" -> Pow(a, 2)
     [] op = "pow3" -> Pow(a, 3)
-    [] op \in {"sin", "cos", "exp", "tanh", "atan"} -> Fn(op, a)
+    [] op \in {"sin", "cos", "exp", "tanh", "atan", "tan"} -> Fn(op, a)
+    [] op = "asinb" -> Fn("asin", a)
+    [] op = "acosb" -> Fn("acos", a)
     [] op = "sqrt1" -> Fn("sqrt", Bin("add", Pow(a, 2), CI(1)))   \* total on the reals
     [] op = "log1"  -> Fn("log",  Bin("add", Pow(a, 2), CI(1)))
 
@@ -141,6 +146,8 @@ Grow(op, i, j) ==
   /\ phase = "grow" /\ NGrown < MaxGrow
   /\ op \in Ops /\ i \in DOMAIN pool /\ j \in DOMAIN pool
   /\ (op \in UnaryOps => j = 1)
+  /\ (op \in {"asinb", "acosb"} => BoundedFn(pool[i]))
+  /\ ((Chain /\ NGrown > 0) => (i = Len(pool) \/ j = Len(pool)))
   /\ (op \in {"add", "mul"} => i <= j)                \* commutative: one representative
   /\ (RationalOnly => op \in BinOps \cup {"neg", "pow2", "pow3"})
   /\ LET e == MkNode(op, pool[i], pool[j]) IN
